@@ -23,6 +23,7 @@ MENU = {
     'mov16': ('MovImmediateT1', 0x2307, 16, 'dp16'),        # MOV(S) r3, #7
     'addw32': ('AddImmediateThumbT3', 0xF1050410, 32, 'dp32'),  # ADD.W r4, r5, #16
     'nop16': ('NopT1', 0xBF00, 16, 'nop'),
+    'msr32': ('MsrRegisterApplicationT1', 0xF3808800, 32, 'sys32'),  # MSR APSR_nzcvq, r0 (flags change mid-block)
     'ldr16': ('LdrImmediateThumbT1', 0x687E, 16, 'mem'),    # LDR r6, [r7, #4]
     'b16': ('BT2', 0xE002, 16, 'branch'),                    # B .+8   (only as last instruction of the block)
     'svc': ('SvcT1', 0xDF01, 16, 'exc'),
@@ -185,8 +186,14 @@ def shapes(tier, seed=0):
                 (('nop16', 'b16'), 2), (('cmp16', 'adds16', 'svc'), 3),
                 (('svc+ret', 'mov16'), 2), (('svc+ret', 'adds16', 'mov16', 'cmp16'), 4),
                 (('cmp16', 'svc+ret', 'adds16'), 3), (('adds16', 'mov16', 'svc+ret', 'addw32'), 4),
-                (('mov16', 'svc+ret', 'mov16', 'adds16'), 4)]
+                (('mov16', 'svc+ret', 'mov16', 'adds16'), 4),
+                (('msr32',), 1), (('msr32', 'mov16'), 2), (('cmp16', 'msr32', 'adds16'), 3),
+                (('adds16', 'msr32', 'mov16', 'cmp16'), 4), (('msr32', 'msr32', 'svc'), 4)]
         return out
+    for L in (1, 2, 3, 4):
+        for pos in range(L):
+            for body in itertools.product(['adds16', 'cmp16', 'addw32'], repeat=L - 1):
+                out.append((body[:pos] + ('msr32',) + body[pos:], L))
     for L in (2, 3, 4):
         for pos in range(L - 1):
             for body in itertools.product(['adds16', 'mov16', 'cmp16'], repeat=L - 1):
@@ -215,7 +222,8 @@ def units(tier, seed=0):
 
 META = {
     'explanation': 'Bounded symbolic verification of the real code over multi-step programs: IT <firstcond,mask> followed '
-                   'by 1-4 instructions from a menu (16-bit ADDS/MOVS/CMP/LDR/NOP, 32-bit ADD.W, B as last, SVC, UDF) '
+                   'by 1-4 instructions from a menu (16-bit ADDS/MOVS/CMP/LDR/NOP, 32-bit ADD.W and MSR APSR, B as last, SVC, '
+                   'UDF, SVC with a returning handler) '
                    'placed in a symbolic memory; firstcond, mask (every legal pair), NZCV, all register values and '
                    'memory are symbolic; the real emulate_cycle is called once per instruction and after EVERY step '
                    'CPSR (incl. ITSTATE) and PC are compared with the composed oracle steps, the whole final state '
@@ -225,7 +233,7 @@ META = {
                    'UDF). ITAdvance itself for all 256 ITSTATE values is the ItT1 / per-row IT advance of every Thumb '
                    'row (C01..C12) and the lemma in C05. Restoring SPSR.IT on return is the exception-return rows of '
                    'C12 (incl. the not-advanced-after-restore rule).',
-    'bounds': ['programs: one IT block of <= 4 slots from the stated 9-instruction menu (quick: 40 shapes; thorough: all '
+    'bounds': ['programs: one IT block of <= 4 slots from the stated 11-instruction menu (quick: 50 shapes; thorough: all '
                '~2000 shapes); menu instructions stand for their classes', 'arch 7'],
     'outside': ['programs longer than one IT block; nested/UNPREDICTABLE IT usage'],
     'stubs': stubs.STUBS_DOC,
